@@ -149,7 +149,7 @@ GroupsExact(sa, inv, lcp, minLen, maxLen, cbs) ==
      /\ \A k \in 1..Len(cbs) :
           (Len(cbs[k][2]) >= 2 /\ k \notin inexp) =>
              LET b == RankBounds(cbs[k][2], inv, 1, Len(sa) + 1, 0) IN
-             RangeMin(lcp, b[1] + 1, b[2], maxLen, maxLen + 1) > cbs[k][1]
+             RangeMin(lcp, b[1] + 1, b[2], maxLen, IF maxLen >= 2147483647 THEN maxLen ELSE maxLen + 1) > cbs[k][1]
 
 (* children first: a group strictly contained in another one is reported    *)
 (* before it.  Groups that are contiguous rank intervals (all groups the    *)
